@@ -7,6 +7,7 @@ import (
 	"testing"
 	"time"
 
+	"github.com/pion/rtcp"
 	"github.com/pion/rtp"
 
 	gortsplib "github.com/bluenviron/gortsplib/v5"
@@ -48,9 +49,12 @@ func genCap(seed uint64) Scenario {
 	sc := Scenario{Seed: seed, Sub: 1, Mode: "cap"}
 	sc.Cap = r.Pick(8, 16, 32, 64, 128, 256, 512)
 	sc.CapSpec = &CapSpec{
-		Entry:     []string{"record", "backchannel", "stream"}[r.Intn(3)],
+		Entry:     []string{"record", "backchannel", "stream", "mcast_rtcp"}[int(core.HS(seed, "c16.cap.entry", "", 0)%4)],
 		Transport: []string{"tcp", "udp"}[r.Intn(2)],
 		Extra:     r.Range(1, 6),
+	}
+	if sc.CapSpec.Entry == "mcast_rtcp" {
+		sc.CapSpec.Transport = "mcast"
 	}
 	if sc.CapSpec.Entry == "record" && r.Bool(0.4) {
 		sc.CapSpec.RefusedPause = true
@@ -80,13 +84,20 @@ func runCap(t *testing.T, sc Scenario) *core.Result {
 	opts := sys.Options{Seed: sc.Seed, Net: cs.Net, MaxSteps: 400000, Horizon: 10 * time.Minute}
 	var sample map[string]any
 	res := sys.Run(t, opts, func(w *sys.World) {
-		w.ProbeInit("cap_record", "cap_backchannel", "cap_stream", "cap_refusal_at_capacity", "cap_refused_pause")
+		w.ProbeInit("cap_record", "cap_backchannel", "cap_stream", "cap_mcast_rtcp", "cap_refusal_at_capacity", "cap_refused_pause")
 		srvNode := w.Net.Node("srv", "10.0.0.1")
-		cliNode := w.Net.Node("cli", "10.0.0.20")
+		cliIP := "10.0.0.20"
+		if cs.Transport == "mcast" {
+			cliIP = "127.0.0.1" // the client looks for a real interface with its local address
+		}
+		cliNode := w.Net.Node("cli", cliIP)
 		h := sys.NewHandler(w)
 		srv := &gortsplib.Server{
 			RTSPAddress: "10.0.0.1:8554", UDPRTPAddress: "10.0.0.1:8000", UDPRTCPAddress: "10.0.0.1:8001",
 			WriteQueueSize: sc.Cap, Handler: h,
+		}
+		if cs.Transport == "mcast" {
+			srv.MulticastIPRange, srv.MulticastRTPPort, srv.MulticastRTCPPort = "224.1.0.0/16", 8002, 8003
 		}
 		h.Server = srv
 		sys.WireServer(srv, srvNode, nil)
@@ -117,8 +128,11 @@ func runCap(t *testing.T, sc Scenario) *core.Result {
 			defer srv.Close()
 			defer stream.Close()
 			p := gortsplib.ProtocolTCP
-			if cs.Transport == "udp" {
+			switch cs.Transport {
+			case "udp":
 				p = gortsplib.ProtocolUDP
+			case "mcast":
+				p = gortsplib.ProtocolUDPMulticast
 			}
 			c := &gortsplib.Client{Scheme: "rtsp", Host: "10.0.0.1:8554", Protocol: &p, WriteQueueSize: sc.Cap,
 				RequestBackChannels: cs.Entry == "backchannel"}
@@ -223,6 +237,70 @@ func runCap(t *testing.T, sc Scenario) *core.Result {
 						accepted++
 					}
 				}
+			case "mcast_rtcp":
+				// RTCP written through the stream API towards a UDP-multicast reader: the multicast
+				// writer's queue. What is accepted must be executed: over a network that loses nothing
+				// every packet whose write reported no error reaches the reader.
+				u, _ := base.ParseURL("rtsp://10.0.0.1:8554/stream")
+				d, _, err := c.Describe(u)
+				if err != nil {
+					fail("Describe", err)
+					return
+				}
+				if err := c.SetupAll(d.BaseURL, d.Medias); err != nil {
+					fail("SetupAll", err)
+					return
+				}
+				var got atomic.Int32
+				c.OnPacketRTPAny(func(*description.Media, format.Format, *rtp.Packet) {})
+				c.OnPacketRTCPAny(func(_ *description.Media, p rtcp.Packet) {
+					if a, ok := p.(*rtcp.ApplicationDefined); ok && a.Name == "c16 " {
+						got.Add(1)
+					}
+				})
+				if _, err := c.Play(nil); err != nil {
+					fail("Play", err)
+					return
+				}
+				stream.WritePacketRTP(desc.Medias[0], pkt(96, 0)) //nolint:errcheck
+				time.Sleep(200 * time.Millisecond)
+				w.Probe("cap_mcast_rtcp")
+				before := 0
+				for _, cb := range h.Callbacks() {
+					if cb.Kind == "write_error" {
+						before++
+					}
+				}
+				for k := 0; k < n; k++ {
+					err := stream.WritePacketRTCP(desc.Medias[0], &rtcp.ApplicationDefined{SubType: 1, SSRC: uint32(k), Name: "c16 ", Data: []byte{1, 2, 3, 4}})
+					ne := 0
+					for _, cb := range h.Callbacks() {
+						if cb.Kind == "write_error" {
+							ne++
+							if firstErr == nil {
+								firstErr = cb.Err
+							}
+						}
+					}
+					if err != nil && firstErr == nil {
+						firstErr = err
+					}
+					if err != nil || ne > before {
+						if refusedAt < 0 {
+							refusedAt = k
+						}
+						before = ne
+					} else {
+						accepted++
+					}
+				}
+				time.Sleep(500 * time.Millisecond)
+				if g := int(got.Load()); g < accepted {
+					w.Fail("c16/executed mcast-rtcp", "UDP-multicast reader, WriteQueueSize %d: %d of %d RTCP packets written through ServerStream.WritePacketRTCP in one burst were accepted (no error returned, none reported), but only %d reached the reader over a network that loses nothing: accepted items were dropped without the caller being told",
+						sc.Cap, accepted, n, g)
+					return
+				}
+				refusedAt = -1 // (accepted counts all accepted writes of the burst here, not those before the first refusal)
 			case "stream":
 				u, _ := base.ParseURL("rtsp://10.0.0.1:8554/stream")
 				d, _, err := c.Describe(u)
@@ -289,7 +367,7 @@ func runCap(t *testing.T, sc Scenario) *core.Result {
 			time.Sleep(100 * time.Millisecond)
 		})
 	})
-	res.Nontrivial = res.Probes["cap_record"]+res.Probes["cap_backchannel"]+res.Probes["cap_stream"] > 0
+	res.Nontrivial = res.Probes["cap_record"]+res.Probes["cap_backchannel"]+res.Probes["cap_stream"]+res.Probes["cap_mcast_rtcp"] > 0
 	res.Sample = sample
 	_ = fmt.Sprint
 	return res
